@@ -185,11 +185,14 @@ def run_compression_case(ctx, res, seed, rank=None):
             for f, fn in enumerate(fields)}
     mat = np.concatenate([data[fn][..., np.newaxis] for fn in fields], axis=-1).reshape((nsamp, -1))
     norm = rng.choice([None, 'linear(0.5, 1)', None])
-    comp = SVD(rank=rank, data_matrix=mat.T if norm is None else (0.5 * mat.T + 1), coords=grid, fields=fields)
+    # the grid is 1-d, or the same number of points arranged as 2-d coordinates (num_pts, 2)
+    two_d = (seed % 3 == 0)
+    coords = np.stack([grid, np.cos(3 * grid)], axis=-1) if two_d else grid
+    comp = SVD(rank=rank, data_matrix=mat.T if norm is None else (0.5 * mat.T + 1), coords=coords, fields=fields)
     var = Variable('p', compression=comp, norm=norm)
     P = comp.projection_matrix
     ortho = float(np.max(np.abs(P.T @ P - np.eye(P.shape[1]))))
-    info = {'svd': seed, 'rank': rank, 'fields': nfields, 'grid': ngrid, 'norm': norm, 'PtP_minus_I': ortho}
+    info = {'svd': seed, 'coords_dim': 2 if two_d else 1, 'rank': rank, 'fields': nfields, 'grid': ngrid, 'norm': norm, 'PtP_minus_I': ortho}
     if ortho > 1e-10:
         res.failures.append({'kind': 'projection-columns-not-orthonormal', 'input': info}); return
     from amisc.variable import VariableList
